@@ -361,6 +361,9 @@ class Flow:
                         out[v] = src
                 elif v[0] == 'ext':
                     out[v] = src
+                elif (v[0] == 'str' and 'str' in flt[1]) or (v[0] in ('list', 'tuple', 'dict', 'set') and v[0] in flt[1]) or \
+                        (v == INT and ('int' in flt[1] or 'float' in flt[1])) or (v == BOOL and ('bool' in flt[1] or 'int' in flt[1])):
+                    out[v] = src
             elif kind == 'eq':
                 if v[0] == 'str':
                     out[S(('lit', flt[1]))] = src
